@@ -451,13 +451,13 @@ def run_pipeline(nodes: list, data: Any = NODATA, ctx: Optional[dict] = None, *,
         resolved = {}
         for name, default in nm.params:
             if name in nm.config:
-                resolved[name] = nm.config[name]
+                resolved[name] = nt.params[name] = nm.config[name]
                 nt.origins[name] = ("config", None)
             elif name in ctx:
-                resolved[name] = ctx[name]
+                resolved[name] = nt.params[name] = ctx[name]
                 nt.origins[name] = ("context", producer.get(name))
             elif default is not REQ:
-                resolved[name] = default
+                resolved[name] = nt.params[name] = default
                 nt.origins[name] = ("default", None)
             else:
                 if nm.shorthand and nm.shorthand[0] == "delete":  # "if the key is present ... it is removed"
